@@ -53,6 +53,12 @@ impl Timer {
     ///
     /// The result is cached.
     pub fn precision(self) -> FineDuration {
+        // Under a virtual clock, measure on every call instead of caching.
+        #[cfg(feature = "verif_hooks")]
+        if crate::verif::virtual_tsc_installed() {
+            return self.measure_precision();
+        }
+
         static CACHED: [OnceLock<FineDuration>; Timer::COUNT] =
             [OnceLock::new(), OnceLock::new()];
 
@@ -140,6 +146,12 @@ impl Timer {
     ///
     /// `min_time` and `max_time` do not consider this as benchmarking time.
     pub fn bench_overheads(self) -> &'static TimedOverhead {
+        // Under a virtual clock, overheads are zero (same as under Miri).
+        #[cfg(feature = "verif_hooks")]
+        if crate::verif::virtual_tsc_installed() {
+            return &TimedOverhead::ZERO;
+        }
+
         // Miri is slow, so don't waste time on this.
         if cfg!(miri) {
             return &TimedOverhead::ZERO;
